@@ -222,4 +222,124 @@ theorem mrm_canLend (b : Bool) (d : Nat) (t : MTree r d) (n : Nat) (hn : n < 2^3
 
 end heap
 
+/-! ## 2. `rebalanceChildren` / `mergeChildren` over the heap -/
+
+section heapOps
+variable {r : Nat} (T : Nat)
+
+/-- `storeSlab` of any index-slab record -/
+theorem mrm_storeSlab_metaRec (s : MHSt r) (mm : MapMetaDataSlab DX) :
+    storeSlab (envMH T) s (.metaSlab mm) = some (none, s.store mm.header.slabID (.metaSlab (mr_metaD mm))) := by
+  simp only [storeSlab, MapSlab_SlabID, MapMetaDataSlab_SlabID, envMH_store, mr_fromM, Option.isNone_none,
+    Bool.not_true, Bool.false_eq_true, if_false]
+
+/-- the heap after `rebalanceChildren`: `Store` left, `Store` right, `Store` parent -/
+def mrm_rebHeap {α : Type} (s : MHSt r) (d : Nat) (l' r' : MTree r d) (m' : MMetaSlab α) (x : Option DX) : MHSt r :=
+  ((s.store (MTree.hdr d l').id (md_tree d l' none)).store (MTree.hdr d r').id (md_tree d r' none)).store
+    m'.hdr.id (.metaSlab (md_meta m' x))
+
+/-- the heap after `mergeChildren`: `Store` merged, `Store` parent, `Remove` right -/
+def mrm_mergeHeap {α : Type} (s : MHSt r) (d : Nat) (merged : MTree r d) (m' : MMetaSlab α) (x : Option DX)
+    (rid : SlabID) : MHSt r :=
+  ((s.store (MTree.hdr d merged).id (md_tree d merged none)).store m'.hdr.id (.metaSlab (md_meta m' x))).remove rid
+
+/-- `MapMetaDataSlab.rebalanceChildren` over the heap = `MMetaSlab.rebalanceChildren`: as WP10's
+    `MapMetaDataSlab_rebalanceChildren_eq_model`, the storage after is the heap with both children and the parent stored
+    (their descent translations), in this order.  `hfit`: the data-slab fields of the two results are in `uint` range. -/
+theorem Ob_rebalanceChildren_heap (d : Nat)
+    (m : MMetaSlab (MTree r d)) (x : Option DX) (l rr : MTree r d) (li ri : Nat) (b : Bool) (s : MHSt r)
+    (hli : li < m.childHdrs.length) (hri : ri < m.childHdrs.length) (hok : msl_RebalanceOK T d l rr b)
+    (hfit : mr_RootFit d (msl_rebalanced T d l rr b).1 ∧ mr_RootFit d (msl_rebalanced T d l rr b).2) :
+    MapMetaDataSlab_rebalanceChildren (envMH T) (cMeta m x) s (cTree d l) (cTree d rr) (Int.ofNat li) (Int.ofNat ri) b =
+      match MMetaSlab.rebalanceChildren T m l rr li ri b s.ctx with
+      | .error e => some (some e, cMeta m x, s, cTree d l, cTree d rr)
+      | .ok (m', _) =>
+        some (none, cMeta m' x,
+          mrm_rebHeap s d (msl_rebalanced T d l rr b).1 (msl_rebalanced T d l rr b).2 m' x,
+          cTree d (msl_rebalanced T d l rr b).1, cTree d (msl_rebalanced T d l rr b).2) := by
+  have hstep := mrm_rebalance_step T (envMH T) (mrm_envMH_EnvH T) d l rr b hok
+  have hl : goInRange (cMeta m x).childrenHeaders (Int.ofNat li) = true :=
+    msl_goInRange_ofNat _ _ (by simp only [cMeta, List.length_map]; exact hli)
+  simp only [msl_rebalanced] at hfit
+  simp only [MapMetaDataSlab_rebalanceChildren, MMetaSlab.rebalanceChildren, msl_rebalanced, mrm_rebHeap]
+  cases b with
+  | true =>
+    simp only [↓reduceIte] at hstep hfit ⊢
+    rw [hstep]
+    cases hres : MTree.borrowFromRight T d l rr with
+    | error e => simp only [bind, Except.bind, Option.isNone_some, Bool.not_false, if_true]
+    | ok p =>
+      obtain ⟨l', r'⟩ := p
+      rw [hres] at hfit
+      have hr : goInRange ((m.childHdrs.set li (MTree.hdr d l')).map cHdr) (Int.ofNat ri) = true :=
+        msl_goInRange_ofNat _ _ (by rw [List.length_map, List.length_set]; exact hri)
+      simp only [bind, Except.bind, pure, Except.pure, Option.isNone_none, Bool.not_true, Bool.false_eq_true, if_false,
+        mrm_Header_cTree, hl, if_true, msl_intOfNat_toNat, int_deq_zero]
+      simp only [cMeta, msl_cHdr_set, hr, if_true]
+      by_cases h0 : li = 0
+      · simp only [h0, decide_true, if_true, mrm_storeSlab_heap T _ d l' hfit.1, mrm_storeSlab_heap T _ d r' hfit.2,
+          mrm_storeSlab_metaRec, Option.isNone_none,
+          Bool.not_true, Bool.false_eq_true, if_false, beq_self_eq_true]
+        simp only [cHdr, mr_metaD, mr_hdrD, md_meta, md_hdr, List.map_map, Function.comp_def]
+        rfl
+      · simp only [h0, decide_false, Bool.false_eq_true, if_false, mrm_storeSlab_heap T _ d l' hfit.1,
+          mrm_storeSlab_heap T _ d r' hfit.2, mrm_storeSlab_metaRec,
+          Option.isNone_none, Bool.not_true, beq_iff_eq]
+        simp only [cHdr, mr_metaD, mr_hdrD, md_meta, md_hdr, List.map_map, Function.comp_def]
+        rfl
+  | false =>
+    simp only [Bool.false_eq_true, ↓reduceIte] at hstep hfit ⊢
+    rw [hstep]
+    cases hres : MTree.lendToRight T d l rr with
+    | error e => simp only [bind, Except.bind, Option.isNone_some, Bool.not_false, if_true]
+    | ok p =>
+      obtain ⟨l', r'⟩ := p
+      rw [hres] at hfit
+      have hr : goInRange ((m.childHdrs.set li (MTree.hdr d l')).map cHdr) (Int.ofNat ri) = true :=
+        msl_goInRange_ofNat _ _ (by rw [List.length_map, List.length_set]; exact hri)
+      simp only [bind, Except.bind, pure, Except.pure, Option.isNone_none, Bool.not_true, Bool.false_eq_true, if_false,
+        mrm_Header_cTree, hl, if_true, msl_intOfNat_toNat, int_deq_zero]
+      simp only [cMeta, msl_cHdr_set, hr, if_true]
+      by_cases h0 : li = 0
+      · simp only [h0, decide_true, if_true, mrm_storeSlab_heap T _ d l' hfit.1, mrm_storeSlab_heap T _ d r' hfit.2,
+          mrm_storeSlab_metaRec, Option.isNone_none,
+          Bool.not_true, Bool.false_eq_true, if_false, beq_self_eq_true]
+        simp only [cHdr, mr_metaD, mr_hdrD, md_meta, md_hdr, List.map_map, Function.comp_def]
+        rfl
+      · simp only [h0, decide_false, Bool.false_eq_true, if_false, mrm_storeSlab_heap T _ d l' hfit.1,
+          mrm_storeSlab_heap T _ d r' hfit.2, mrm_storeSlab_metaRec,
+          Option.isNone_none, Bool.not_true, beq_iff_eq]
+        simp only [cHdr, mr_metaD, mr_hdrD, md_meta, md_hdr, List.map_map, Function.comp_def]
+        rfl
+
+/-- `MapMetaDataSlab.mergeChildren` over the heap = `MMetaSlab.mergeChildren`: as WP10's
+    `MapMetaDataSlab_mergeChildren_eq_model`; the heap after: merged slab stored, parent stored, right slab removed. -/
+theorem Ob_mergeChildren_heap (d : Nat)
+    (m : MMetaSlab (MTree r d)) (x : Option DX) (l rr : MTree r d) (li ri : Nat) (s : MHSt r)
+    (hli : li < m.childHdrs.length) (hri : ri < m.childHdrs.length)
+    (hsz : Gen.mapSlabHeaderSize ≤ m.hdr.size) (hok : msl_MergeOK d l rr)
+    (hfit : mr_RootFit d (MTree.merge d l rr)) :
+    MapMetaDataSlab_mergeChildren (envMH T) (cMeta m x) s (cTree d l) (cTree d rr) (Int.ofNat li) (Int.ofNat ri) =
+      some (none, cMeta (MMetaSlab.mergeChildren m l rr li ri s.ctx).1 x,
+        mrm_mergeHeap s d (MTree.merge d l rr) (MMetaSlab.mergeChildren m l rr li ri s.ctx).1 x (MTree.hdr d rr).id,
+        cTree d (MTree.merge d l rr)) := by
+  have hm := mrm_Merge_eq_model (envMH T) d l rr hok
+  have hu := MapMetaDataSlab_updateChildrenHeadersAfterMerge_eq' (V := SV) (envMH (r := r) T) m x
+    (MTree.hdr d (MTree.merge d l rr)) li ri hli hri
+  simp only [MapMetaDataSlab_mergeChildren, MMetaSlab.mergeChildren, mrm_mergeHeap, hm, Option.isNone_none, Bool.not_true,
+    Bool.false_eq_true, if_false, mrm_Header_cTree, hu, int_deq_zero, mrm_SlabID_cTree]
+  by_cases h0 : li = 0
+  · simp only [h0, decide_true, if_true, mrm_storeSlab_heap T _ d _ hfit, mrm_storeSlab_metaRec, Option.isNone_none,
+      Bool.not_true, Bool.false_eq_true, if_false, beq_self_eq_true, envMH_remove]
+    simp only [cMeta, cHdr, u32, UInt32.ofNat_sub hsz, mr_metaD, mr_hdrD, md_meta, md_hdr, List.map_map,
+      Function.comp_def]
+    rfl
+  · simp only [h0, decide_false, Bool.false_eq_true, if_false, mrm_storeSlab_heap T _ d _ hfit, mrm_storeSlab_metaRec,
+      Option.isNone_none, Bool.not_true, beq_iff_eq, envMH_remove]
+    simp only [cMeta, cHdr, u32, UInt32.ofNat_sub hsz, mr_metaD, mr_hdrD, md_meta, md_hdr, List.map_map,
+      Function.comp_def]
+    rfl
+
+end heapOps
+
 end Atree.TransEq
